@@ -112,3 +112,13 @@ Theorem cancel_racing_reducer_write_reraises_runtime_panic :
   exists sched, let s := run f13_cfg (init f13_cfg) sched in
     g_panics s = [] /\ result s = Some (OPanic PClosed) /\ clean s = true.
 Proof. exists f13_sched. vm_compute. repeat split; reflexivity. Qed.
+
+(* why terminal_clean assumes at most two Writes of the reducer: the caller re-raises "more than
+   one element written in reducer" at the second value and is gone; a third Write blocks in the
+   reducer's own call for ever (nothing closes output) *)
+Definition w3_cfg : config := mkCfg VFixed false 1%nat [] (fun _ => []) [UWrite 1; UWrite 2; UWrite 3].
+Theorem third_write_blocks :
+  exists sched, let s := run w3_cfg (init w3_cfg) sched in
+    result s = Some (OPanic PMulti) /\ stuck w3_cfg s = true /\ clean s = false
+    /\ redpc s = SendPend 3 [].
+Proof. exists (rep 20 (LMain BOut :: others)). vm_compute. repeat split; reflexivity. Qed.
